@@ -299,6 +299,20 @@ Fixpoint chunks (fuel : nat) (n : nat) (l : str) : list str :=
 
 Definition chunk_len : nat := Z.to_nat (C20_BUF_SIZE - C20_FREAD_SLACK).
 
+(* the .vnc path stores a terminator behind the first chunk: n = fread(buf, 1, BUF_SIZE-1, fd); buf[n] = 0;
+   (site Overflow 8: it would lie outside buf[BUF_SIZE] if fread could fill the whole buffer) *)
+Definition term_overflows (subst : bool) (content : str) : bool :=
+  subst && (Z.of_nat (Nat.min chunk_len (length content)) >=? C20_BUF_SIZE).
+
+(* holds because of the slack in the fread count (C20_FREAD_SLACK, regenerated from httpd.c) *)
+Lemma term_fits : forall subst content, term_overflows subst content = false.
+Proof.
+  intros subst content. unfold term_overflows. destruct subst; [|reflexivity]. cbn [andb].
+  assert (H : Z.of_nat chunk_len < C20_BUF_SIZE).
+  { unfold chunk_len. rewrite Z2Nat.id; unfold C20_BUF_SIZE, C20_FREAD_SLACK; lia. }
+  rewrite Z.geb_leb. apply Z.leb_gt. lia.
+Qed.
+
 Fixpoint body_effects (cfg : config) (params : str) (subst : bool) (cs : list str) : option (list effect) :=
   match cs with
   | [] => Some []
@@ -354,6 +368,8 @@ Definition serve (v : variant) (cfg : config) (tok : str) : list effect * status
       match fs path with
       | None => ([Open path false; Send (r_notfound cfg); Close], Done)
       | Some content =>
+          if term_overflows subst content
+          then ([Open path true; Send (r_ok cfg); Send (content_type fname'); Send s_crlf], Crash (Overflow 8)) else
           match body_effects cfg params subst (chunks (S (length content)) chunk_len content) with
           | None => ([Open path true; Send (r_ok cfg); Send (content_type fname'); Send s_crlf], Crash (Overflow 6))
           | Some body =>
